@@ -172,6 +172,13 @@ func c13(r *core.Report) {
 	ruleDoneAfterCallback(r, h, "C13-DONE-AFTER-CALLBACK")
 
 	// ---- C13-RENDEZVOUS
+	// ---- C13-CLOSE-REASON (shared with C12-ERR-NONNIL): a Deliver/Receive/ServeAsk woken by the closed
+	// signal returns q.err; it reports success for a message no callback saw (or for no callback at all)
+	// unless the reason is non-nil and published BEFORE the signal is raised
+	r.Rule("C13-CLOSE-REASON", "the hubs' close reason is provably non-nil and stored before close(closed); closed cases return it", 8)
+	ruleHubErrNonNil(r, h, core.NewNonNil(p), "C13-CLOSE-REASON", []*types.Var{h.tellErr, h.askErr},
+		[]string{"TellHub.Receive", "TellHub.Deliver", "TellHub.checkClosed", "AskHub.ServeAsk", "AskHub.Deliver", "AskHub.checkClosed", "Queue.Receive"})
+
 	r.Rule("C13-RENDEZVOUS", "rendezvous channels are unbuffered, never closed and received from only by Receive/ServeAsk", 5)
 	for _, d := range []struct {
 		fld     *types.Var
